@@ -105,7 +105,28 @@ def build_driver():
         return False, "ocamlopt: " + out[-800:]
     os.replace(os.path.join(DRIVER_DIR, "driver.new"), DRIVER_BIN)
     open(stamp, "w").write(dig)
+    json.dump(gen_hashes(), open(os.path.join(DRIVER_DIR, "gen_stamp.json"), "w"))
     return True, "built"
+
+
+def gen_hashes():
+    """sha256 of every regenerated leaf file (coq/theories/Gen*.v)"""
+    import glob
+    out = {}
+    for f in glob.glob(os.path.join(COQ, "theories", "Gen*.v")):
+        out[os.path.basename(f)[:-2]] = hashlib.sha256(open(f, "rb").read()).hexdigest()
+    return out
+
+
+def driver_valid_for(areas):
+    """the last good driver was extracted from leaf files; it is still the model of a property whose own
+    leaf areas are byte-identical to the ones it was built from (another area may have stopped translating)"""
+    try:
+        old = json.load(open(os.path.join(DRIVER_DIR, "gen_stamp.json")))
+    except (OSError, ValueError):
+        return False
+    cur = gen_hashes()
+    return os.path.exists(DRIVER_BIN) and all(a in old and old[a] == cur.get(a) for a in areas)
 
 
 def build_harness(release=False):
